@@ -1301,6 +1301,12 @@ class StaleFamily(SubsFamily):
                 k['stall_p'] = 0.0
                 k['stall_max'] = rng.choice([3.0, 6.0, 12.0])
                 k['boost_locked'] = True                                # later motifs of this run keep this choice
+                if rng.random() < 0.35:
+                    # ... or every read is slow by a second or so (also the header read at the start of a notification
+                    # round): a history read can finish inside that round
+                    k['stall_boost'] = None
+                    k['stall_p'] = rng.choice([0.05, 0.15, 0.3])
+                    k['stall_max'] = rng.choice([1.0, 3.0])
                 sx = rng.randrange(8)
                 tq = round(rng.uniform(0.5, 3.0), 2)
                 for c in range(nclients):
@@ -1382,7 +1388,7 @@ class ProofsFamily(StaleFamily):
 
     def gen(self, rng, tier, prop):
         case = super().gen(rng, tier, prop)
-        if rng.random() < 0.3:
+        if rng.random() < 0.4:
             # motif: blocks of >= 200 transactions (the session manager keeps an incremental merkle cache per
             # such height), proof requests of all kinds for them in flight - parked on slow header / hash
             # reads - while a fork replaces them with other large blocks
@@ -1391,7 +1397,7 @@ class ProofsFamily(StaleFamily):
             k['stall_boost'] = (rng.choice(['read_headers', 'fs_tx_hashes_at_blockheight', 'read_headers']),
                                 rng.choice([0.4, 0.8]), 'RPCSession', rng.choice(['release', 'timed']))
             k['stall_p'] = 0.0      # only reads on behalf of client requests are slow: the reorg overtakes them
-            k['queue_p'] = rng.choice([0.0, 0.2, 0.5])     # ... and their jobs may wait in the executor's queue
+            k['queue_p'] = rng.choice([0.0, 0.3, 0.6, 0.6])     # ... and their jobs may wait in the executor's queue
             d = rng.choice([1, 1, 2])
             big = lambda: rng.randint(200, 270)     # noqa: E731
             plan.append(dict(op='mine', n=d, ntx=[big() for _ in range(d)], seed=rng.getrandbits(32)))
